@@ -228,7 +228,17 @@ var ops = []op{
 		if m := s.req.Context.Map(); m != nil {
 			m["added-by-caller"] = types.True
 		}
-		for _, e := range s.ents {
+		// (in a fixed order: these are library calls, i.e. scheduling points in the entry-point mode)
+		var uids []types.EntityUID
+		for u := range s.ents {
+			uids = append(uids, u)
+		}
+		sort.Slice(uids, func(i, j int) bool {
+			return uids[i].Type < uids[j].Type || (uids[i].Type == uids[j].Type && uids[i].ID < uids[j].ID)
+		})
+		other := types.EntityUID{Type: "X", ID: "x"}
+		for _, u := range uids {
+			e := s.ents[u]
 			if m := e.Attributes.Map(); m != nil {
 				m["added-by-caller"] = types.True
 			}
@@ -237,7 +247,7 @@ var ops = []op{
 			}
 			ps := e.Parents.Slice()
 			for k := range ps {
-				ps[k] = types.NewEntityUID("X", "x")
+				ps[k] = other
 			}
 		}
 		return sb.String() + fmt.Sprint(set.Contains(types.Long(1)), set.Len(), len(set.Slice()))
